@@ -182,7 +182,11 @@ class _FuncAnalysis:
             if name == self.kwarg or name == self.vararg:
                 env[name] = {self.new_site(('kwargs', name))}
                 continue
-            env[name] = {P(i)}
+            if i == 0 and self.fi.is_classmethod and self.fi.cls:
+                # the class object is shared state: a write through cls.<attr> changes what every later call sees
+                env[name] = {('global', f'{self.fi.module}.{self.fi.cls}', ())}
+            else:
+                env[name] = {P(i)}
         for p, d in allp:
             if d is not None and not isinstance(d, ast.Constant) and not (
                     isinstance(d, ast.Name)) and not (isinstance(d, ast.Tuple) and not d.elts) \
@@ -799,6 +803,9 @@ class _FuncAnalysis:
                     self.heap.setdefault(t, {}).setdefault(fld, set()).update(inst_set(vs))
                 elif t[0] == 'param':
                     self.sum.param_stores.setdefault((t, fld), set()).update(inst_set(vs))
+        if any(d.split('.')[-1] in ('lru_cache', 'cache', 'cached_property') for d in callee.decorators):
+            # a memoised function hands the same object to every caller: it is process-wide state
+            return {('global', f'{callee.qualname}:<memoised result>', ())}
         return inst_set(s.rets)
 
 
